@@ -72,11 +72,67 @@ def rand_cores(rng, row_dims, col_dims, ranks, cplx=False, kind='gauss'):
     return cores
 
 
+ALIAS = 0.0  # probability that equal-shaped cores of a generated train are one and the same ndarray object
+PROV = 0.0  # probability that a generated operand is passed through `provenance` (set by the property drivers)
+
+
 def rand_tt(rng, row_dims, col_dims, ranks, cplx=False, kind='gauss', scale=None):
     cores = rand_cores(rng, row_dims, col_dims, ranks, cplx, kind)
     if scale is not None:
         apply_scale(cores, rng, scale)
-    return TTcls()(cores)
+    if ALIAS and len(cores) > 1 and rng.random() < ALIAS:
+        # one ndarray object at several positions of the train (e.g. a rank-one tensor x (x) x (x) x written as TT([x, x, x]), or a
+        # homogeneous chain): perfectly legal, and the only way a sweep that writes through a core buffer harms the train itself
+        for i in range(len(cores)):
+            for j in range(i):
+                if cores[j].shape == cores[i].shape and cores[j].dtype == cores[i].dtype:
+                    cores[i] = cores[j]
+                    break
+    t = TTcls()(cores)
+    if PROV and rng.random() < PROV:
+        t = provenance(rng, t)
+    return t
+
+
+def provenance(rng, t, steps=None):
+    """Operands with a history: the object is passed through value-preserving library operations (in-place sweeps, copies,
+    re-construction with a negligible threshold ...) before it is used, so that anything an object carries along besides its
+    cores (markers, cached quantities, shared buffers) is exercised.  The contracts snapshot the operand they are given, so
+    no assumption about these operations enters a verdict.  Runs as oracle code (not monitored)."""
+    from . import probe
+    TT = TTcls()
+    n = int(rng.integers(1, 3)) if steps is None else steps
+    with probe.oracle():
+        for _ in range(n):
+            k = int(rng.integers(0, 9))
+            try:
+                if k == 0:
+                    t = t.copy()
+                elif k == 1:
+                    t.ortho()
+                elif k == 2:
+                    t.ortho_left()
+                    t.ortho_right()
+                elif k == 3:
+                    t.ortho_right()
+                    t.ortho_left()
+                elif k == 4 and t.order > 1:
+                    a = int(rng.integers(0, t.order - 1))
+                    b = int(rng.integers(a, t.order - 1))
+                    t.ortho_left(start_index=a, end_index=b)
+                elif k == 5 and t.order > 1:
+                    a = int(rng.integers(1, t.order))
+                    b = int(rng.integers(1, a + 1))
+                    t.ortho_right(start_index=a, end_index=b)
+                elif k == 6:
+                    t = TT([c.copy() for c in t.cores], threshold=1e-15)
+                elif k == 7:
+                    t = t.transpose().transpose()
+                elif k == 8:
+                    t = 1.0 * t
+            except Exception:
+                pass
+    return t
 
 
 def rand_scale(rng, p_unit=0.6, span=8):
@@ -220,3 +276,24 @@ def rand_cplx(rng):
     if rng.random() < 0.08:
         return 'int'
     return [False, True, 'mixed'][int(rng.integers(0, 3))]
+
+
+def alias_equal_shapes(cores):
+    """make equal-shaped (and equal-typed) cores one and the same ndarray object"""
+    for i in range(len(cores)):
+        for j in range(i):
+            if cores[j].shape == cores[i].shape and cores[j].dtype == cores[i].dtype:
+                cores[i] = cores[j]
+                break
+    return cores
+
+
+def clone_cores(cores):
+    """deep copy of a core list that keeps its aliasing pattern (one object at several positions stays one object)"""
+    seen = {}
+    out = []
+    for c in cores:
+        if id(c) not in seen:
+            seen[id(c)] = np.array(c, copy=True)
+        out.append(seen[id(c)])
+    return out
